@@ -202,6 +202,7 @@ class Trace:
         self.index = {}
         self.runs = []
         self.tag = tag
+        self.exc = {}
         self.inp = self.seq(calls)
 
     def seq(self, calls):
@@ -216,7 +217,7 @@ class Trace:
         self.runs.append([int(x) for x in r])
 
     def json(self):
-        return {"k": self.K, "s": self.seqs, "r": self.runs, "tag": self.tag}
+        return {"k": self.K, "s": self.seqs, "r": self.runs, "tag": self.tag, "exc": self.exc}
 
 
 def features(calls):
@@ -315,6 +316,12 @@ def build_trace(item):
 
     K, calls, tag, vseed, level = item
     tr = Trace(K, calls, tag)
+    full = level >= 2          # thorough: every variant of every adapter; quick: variants alternate with the outline index
+    v, w = vseed % 2, (vseed // 2) % 2
+
+    def pick(options, sel):
+        return list(options) if full else [options[sel % len(options)]]
+
     f = features(calls)
     I = tr.inp
     ints = integral(calls, K)
@@ -337,10 +344,10 @@ def build_trace(item):
         except MachineryError:
             raise
         except Exception as e:  # noqa
-            tr.tag = dict(tr.tag, **{"exc_" + name: repr(e)[:200]})
+            tr.exc[str(len(tr.runs) + 1)] = "%s in %s: %s" % (type(e).__name__, name, str(e)[:160])
             return tr.seq([[0]])
 
-    mats = [MATS[(vseed + j) % len(MATS)] for j in range(2)]
+    mats = [MATS[(vseed + j) % len(MATS)] for j in range(3 if full else 1)]
     # half-grid variant of the input (for the rounding contracts): real' = 1.5 real - 2.5 or similar,
     # an integer map on the 1/K grid that produces .5 ties and negative values
     if K % 2 == 0 and all(v % 2 == 0 for c in calls for v in (c[6:] if c[0] in (COMP, PCOMP) else c[1:])):
@@ -360,7 +367,6 @@ def build_trace(item):
     else:
         GQ = GC = 0
         gsQ, gsC = {}, {}
-    only_comps = f.comp and f.contours == 0
 
     if not f.pt:
         # ---------------- segment-pen input ----------------
@@ -370,11 +376,11 @@ def build_trace(item):
             r.replay(out)
 
         tr.run(RAW, I, guarded("recreplay", lambda: seg_out(rec_replay)))
-        tr.run(RAW, I, guarded("filter", lambda: seg_out(lambda out: play(calls, FilterPen(out), K))))
-        tr.run(RAW, I, guarded("cfilter", lambda: seg_out(lambda out: play(calls, ContourFilterPen(out), K))))
-        for gs_ in (True, False):
+        for cls in pick((FilterPen, ContourFilterPen), v):
+            tr.run(RAW, I, guarded(cls.__name__, lambda: seg_out(lambda out: play(calls, cls(out), K))))
+        for gs_ in pick((True, False), w):
             tr.run(S2P, I, guarded("s2p", lambda: pt_out(lambda out: play(calls, SegmentToPointPen(out, guessSmooth=gs_), K))))
-        for flag in (False, True):
+        for flag in pick((False, True), v + w):
             tr.run(P2S, I, guarded("s2p2s", lambda: seg_out(
                 lambda out: play(calls, SegmentToPointPen(PointToSegmentPen(out, outputImpliedClosingLine=flag)), K))))
         for m in mats:
@@ -383,10 +389,11 @@ def build_trace(item):
         if half is not None:
             H = tr.seq(half)
             tr.run(RND, H, guarded("round", lambda: seg_out(lambda out: play(half, RoundingPen(out), K))))
-        for flag in (False, True):
+        rev_o = None
+        for flag in pick((False, True), v):
             o = guarded("reverse", lambda: seg_out(lambda out: play(calls, ReverseContourPen(out, outputImpliedClosingLine=flag), K)))
             tr.run(REV, I, o)
-            if not flag:
+            if rev_o is None:
                 rev_o = o
         tr.run(REVREV, I, guarded("reverse2", lambda: seg_out(lambda out: play(calls, ReverseContourPen(ReverseContourPen(out)), K))))
 
@@ -405,15 +412,16 @@ def build_trace(item):
                         getattr(out, op2)(*args2)
                     cur = []
 
-        tr.run(REV, I, guarded("reversedContour", lambda: seg_out(rev_fn)))
+        if full or w == 0:
+            tr.run(REV, I, guarded("reversedContour", lambda: seg_out(rev_fn)))
         if f.comp:
-            for rf in (False, True):
+            for rf in pick((False, True), v):
                 o = guarded("decompose", lambda: seg_out(lambda out: _decomp_seg(DecomposingRecordingPen, gsQ, rf, calls, K, out)))
                 tr.run(DECOMP, I, o, GQ, int(rf))
         # TrueType glyph
         if ints and not f.curve:
-            for oicl in (False, True):
-                for drop in (False, True):
+            for oicl in pick((False, True), v):
+                for drop in pick((False, True), w):
                     def build():
                         pen = TTGlyphPen(gsQ if f.comp else None, outputImpliedClosingLine=oicl)
                         play(calls, pen, K)
@@ -421,10 +429,10 @@ def build_trace(item):
                     try:
                         glyph = build()
                     except Exception as e:  # noqa
-                        tr.tag = dict(tr.tag, exc_ttglyph=repr(e)[:200])
+                        tr.exc[str(len(tr.runs) + 1)] = "%s in TTGlyphPen: %s" % (type(e).__name__, str(e)[:160])
                         tr.run(TT, I, tr.seq([[0]]), int(drop), 0)
                         continue
-                    gsi = 0 if only_comps else GQ
+                    gsi = GQ
                     flag = 2 if gsi else int(drop)
                     tr.run(TT, I, guarded("ttdraw", lambda: seg_out(lambda out: glyph.draw(out, None))), flag, gsi)
                     tr.run(TT, I, guarded("ttdrawpoints", lambda: pt_out(lambda out: glyph.drawPoints(out, None))), flag, gsi)
@@ -435,7 +443,7 @@ def build_trace(item):
                     continue
                 if sidx is None:
                     sidx = tr.seq(src)
-                for opt in (False, True):
+                for opt in pick((False, True), v + (0 if src is calls else 1)):
                     def t2(out):
                         pen = T2CharStringPen(None, gsC)
                         play(src, pen, K)
@@ -482,7 +490,7 @@ def build_trace(item):
         except MachineryError:
             raise
         except Exception as e:  # noqa
-            tr.tag = dict(tr.tag, exc_measure=repr(e)[:200])
+            tr.exc[str(len(tr.runs) + 1)] = "%s in measuring pens: %s" % (type(e).__name__, str(e)[:160])
             tr.run(MEAS, I, 0, 1, OFFGRID, 0, 0, 0, 0, 0, 0, 0, BSCALE, 0, 0, 0, 0, 0)
     else:
         # ---------------- point-pen input ----------------
@@ -493,7 +501,7 @@ def build_trace(item):
 
         tr.run(RAW, I, guarded("recreplay", lambda: pt_out(rec_replay)))
         tr.run(RAW, I, guarded("filter", lambda: pt_out(lambda out: play(calls, FilterPointPen(out), K))))
-        for flag in (False, True):
+        for flag in pick((False, True), v):
             tr.run(P2S, I, guarded("p2s", lambda: seg_out(lambda out: play(calls, PointToSegmentPen(out, outputImpliedClosingLine=flag), K))))
         tr.run(P2S, I, guarded("p2s2p", lambda: pt_out(lambda out: play(calls, PointToSegmentPen(SegmentToPointPen(out, guessSmooth=False)), K))))
         for m in mats:
@@ -505,11 +513,11 @@ def build_trace(item):
         tr.run(REV, I, guarded("reverse", lambda: pt_out(lambda out: play(calls, ReverseContourPointPen(out), K))))
         tr.run(REVREV, I, guarded("reverse2", lambda: pt_out(lambda out: play(calls, ReverseContourPointPen(ReverseContourPointPen(out)), K))))
         if f.comp:
-            for rf in (False, True):
+            for rf in pick((False, True), v):
                 o = guarded("decompose", lambda: pt_out(lambda out: _decomp_pts(DecomposingRecordingPointPen, gsQ, rf, calls, K, out)))
                 tr.run(DECOMP, I, o, GQ, int(rf))
         if ints and not f.curve:
-            for drop in (False, True):
+            for drop in pick((False, True), w):
                 def build():
                     pen = TTGlyphPointPen(gsQ if f.comp else None)
                     play(calls, pen, K)
@@ -517,10 +525,10 @@ def build_trace(item):
                 try:
                     glyph = build()
                 except Exception as e:  # noqa
-                    tr.tag = dict(tr.tag, exc_ttglyph=repr(e)[:200])
+                    tr.exc[str(len(tr.runs) + 1)] = "%s in TTGlyphPointPen: %s" % (type(e).__name__, str(e)[:160])
                     tr.run(TT, I, tr.seq([[0]]), int(drop), 0)
                     continue
-                gsi = 0 if only_comps else GQ
+                gsi = GQ
                 flag = 2 if gsi else int(drop)
                 tr.run(TT, I, guarded("ttdraw", lambda: seg_out(lambda out: glyph.draw(out, None))), flag, gsi)
                 tr.run(TT, I, guarded("ttdrawpoints", lambda: pt_out(lambda out: glyph.drawPoints(out, None))), flag, gsi)
@@ -558,12 +566,10 @@ def gen_outlines(stdout):
 
 def corpus_inputs(chk):
     """pen streams of real glyphs: (K=2, calls, tag)"""
-    from fontTools.ttLib import TTFont
-    from fontTools.pens.recordingPen import RecordingPen, RecordingPointPen, DecomposingRecordingPen
-
-    per_font = 60 if chk.tier == "thorough" else 10
+    thorough = chk.tier == "thorough"
+    per_font = 40 if thorough else 1
     fonts = [p for p in common.corpus_fonts((".ttf", ".otf")) if os.path.getsize(p) < 3_000_000]
-    jobs = [(p, per_font, chk.seed) for p in fonts]
+    jobs = [(p, per_font, chk.seed, 220 if thorough else 60) for p in fonts]
     res = common.pmap(_font_streams, jobs)
     out = []
     for p, (streams, skipped) in zip(fonts, res):
@@ -578,7 +584,7 @@ def _font_streams(job):
     from fontTools.ttLib import TTFont
     from fontTools.pens.recordingPen import RecordingPen, RecordingPointPen, DecomposingRecordingPen
 
-    path, per_font, seed = job
+    path, per_font, seed, maxcalls = job
     skipped = {}
     streams = []
     K = 2
@@ -610,8 +616,8 @@ def _font_streams(job):
         if any(OFFGRID in c for c in calls) or any(abs(v) > 16000 for c in calls for v in c[1:]):
             skip("glyph coordinates not on the 1/2 grid or > 8000 units")
             continue
-        if len(calls) > 220:
-            skip("glyph with more than 220 pen calls")
+        if len(calls) > maxcalls:
+            skip("glyph with more than %d pen calls" % maxcalls)
             continue
         tag = {"font": common.rel(path), "glyph": n}
         streams.append((K, calls, tag))
@@ -635,23 +641,52 @@ def explain(t, clause):
     d = {"adapter": ad, "clause": cl, "run": run, "K": t["k"], "input": t["s"][run[1] - 1], "tag": t.get("tag")}
     if ad not in ("measure",) and len(run) > 2 and 1 <= run[2] <= len(t["s"]):
         d["output"] = t["s"][run[2] - 1]
+    exc = (t.get("exc") or {}).get(str(ri))
+    if exc:
+        d["exception"] = exc
     return d
 
 
 def judge_all(chk, traces, label):
-    # big traces cost JSON time: chunk by volume
-    rej = chk.judge("Trace_C14", traces, chunk=6000, timeout=1500, label=label)
-    for t, clause in rej:
-        clause = clause[0] if clause and isinstance(clause[0], list) else clause
-        if not isinstance(clause, list) or len(clause) < 3:
-            raise MachineryError("unparsable verdict %r" % (clause,))
+    """TLC judges the traces (one initial state per trace, verdict computed in Next); every failing run of
+    every trace is printed by TLC as <<"REJ", tid, <<adapter, clause, run>>>>."""
+    rejected = []
+    CH = 20000
+    for base in range(0, len(traces), CH):
+        part = traces[base:base + CH]
+        # deep recursion over long contours needs a bigger thread stack than the JVM default
+        r = chk.tlc("Trace_C14", traces=part, timeout=1500, label=label, env={"JAVA_TOOL_OPTIONS": "-Xss64m"})
+        if r.distinct < 2 * len(part):
+            raise MachineryError("Trace_C14: TLC judged %d states for %d traces" % (r.distinct, len(part)))
+        bad = set()
+        for payload in r.rej:
+            tid, clause = payload[0], payload[1]
+            if not isinstance(clause, list) or len(clause) < 3:
+                raise MachineryError("unparsable verdict %r" % (payload,))
+            bad.add(tid)
+            rejected.append((part[tid - 1], clause))
+        chk.traces_validated += len(part) - len(bad)
+    for t, clause in rejected:
         ad, cl, ri = clause[0], clause[1], clause[2]
-        if cl.startswith("malformed"):
-            raise MachineryError("trace outside the modelled domain: %s %s on %s" % (ad, cl, json.dumps(explain(t, clause))[:600]))
         d = explain(t, clause)
-        chk.reject("%s:%s" % (ad, cl), "adapter %s violates clause %s on %s" % (ad, cl, json.dumps(d)[:700]),
-                   {"K": t["k"], "calls": d["input"], "tag": t.get("tag"), "adapter": ad, "clause": cl, "run": d["run"]})
-    return rej
+        if cl.startswith("malformed"):
+            raise MachineryError("trace outside the modelled domain: %s %s on %s" % (ad, cl, json.dumps(d)[:600]))
+        key = "%s:%s" % (ad, cl)
+        if cl == "output-protocol" and d.get("exception"):
+            # the adapter raised on a valid outline: name the exception
+            key = "%s:raises-%s" % (ad, d["exception"].split(" ")[0])
+        # label the input class so that root causes get distinct keys: the TrueType special case
+        # (a contour without on-curve point) is where both findings on the unchanged tree live
+        if any(c[0] == QBLOB for c in d["input"]) or all_off_contour(d["input"]):
+            key += "-on-contour-without-oncurve"
+        chk.reject(key, "adapter %s violates clause %s on %s" % (ad, cl, json.dumps(d)[:700]),
+                   {"K": t["k"], "calls": t["s"][0], "tag": t.get("tag"), "adapter": ad, "clause": cl, "run": d["run"]})
+    return rejected
+
+
+NAMES = {RAW: "passthru", S2P: "seg2pt", P2S: "pt2seg", AFF: "transform", RND: "round", REV: "reverse",
+         REVREV: "reverse2", TT: "ttglyph", T2: "t2charstring", SVG: "svgpath", MEAS: "measure",
+         DECOMP: "decompose", AREANEG: "areaneg"}
 
 
 def run(chk):
@@ -660,27 +695,30 @@ def run(chk):
                 "distinct by the call sequence; non-trivial = the outline has a contour with at least one segment "
                 "(two points), i.e. it draws something")
     # ---- (M) + generation -----------------------------------------------------------
-    cfg = "MC_PenProto_thorough" if thorough else "MC_PenProto"
-    r = chk.tlc("MC_PenProto", cfg=cfg, label="MC_PenProto exhaustive", timeout=2400 if thorough else 400)
+    r = chk.tlc("MC_PenProto", cfg="MC_PenProto", label="MC_PenProto exhaustive", timeout=900)
     outlines = gen_outlines(r.stdout)
     n_exh = len(outlines)
-    chk.log("MC_PenProto (%s): %d states, %d complete outlines, %.0fs" % (cfg, r.distinct, n_exh, r.wall))
+    chk.log("MC_PenProto: %d states, %d complete outlines, laws hold, %.0fs" % (r.distinct, n_exh, r.wall))
     if n_exh < 1000:
         raise MachineryError("generator produced only %d outlines" % n_exh)
-    # deeper behaviours of the same machine by simulation (bigger lattice, more points)
+    # deeper behaviours of the same machine by simulation (bigger lattice, more points, longer sequences)
     sim = chk.tlc("MC_PenProto", cfg="MC_PenProto_sim", label="MC_PenProto simulate",
-                  simulate="num=%d" % (3000 if thorough else 120), depth=16, workers=1,
+                  simulate="num=%d" % (1500 if thorough else 40), depth=16, workers=1,
                   timeout=1500 if thorough else 300)
     known = set(json.dumps(o, separators=(",", ":")) for o in outlines)
     deep = [o for o in gen_outlines(sim.stdout) if json.dumps(o, separators=(",", ":")) not in known]
     chk.log("simulation: %d further outlines, %.0fs" % (len(deep), sim.wall))
-    items = []
-    for i, o in enumerate(outlines):
-        items.append((12, o, {"src": "exhaustive", "n": i}, i, 0))
-    for i, o in enumerate(deep):
-        items.append((12, o, {"src": "simulation", "n": i}, i, 1))
+    # quick replays a seeded sample of the enumerated set, thorough all of it
+    if thorough:
+        chosen = list(range(n_exh))
+    else:
+        chosen = sorted(chk.rng.sample(range(n_exh), min(n_exh, 3500)))
+        deep = sorted(chk.rng.sample(deep, min(len(deep), 2500)), key=lambda o: json.dumps(o))
+    level = 2 if thorough else 0
+    items = [(12, outlines[i], {"src": "exhaustive", "n": i}, i + chk.seed, level) for i in chosen]
+    items += [(12, o, {"src": "simulation", "n": i}, i + chk.seed, level) for i, o in enumerate(deep)]
     # ---- (R) ------------------------------------------------------------------------
-    traces = common.pmap(build_trace, items, chunksize=200)
+    traces = common.pmap(build_trace, items, chunksize=100)
     nruns = sum(len(t["r"]) for t in traces)
     chk.count(nruns)
     for t in traces:
@@ -690,10 +728,11 @@ def run(chk):
         chk.sample({"calls": t["s"][0], "runs": len(t["r"])})
     chk.log("(R) %d outlines, %d adapter runs recorded" % (len(traces), nruns))
     judge_all(chk, traces, "Trace_C14 lattice")
+    chk.log("(R) judged")
     # ---- (V) corpus -------------------------------------------------------------------
     streams = corpus_inputs(chk)
-    citems = [(K, calls, tag, i, 1) for i, (K, calls, tag) in enumerate(streams)]
-    ctraces = common.pmap(build_trace, citems, chunksize=20)
+    citems = [(K, calls, tag, i + chk.seed, 2 if thorough else 1) for i, (K, calls, tag) in enumerate(streams)]
+    ctraces = common.pmap(build_trace, citems, chunksize=10)
     cruns = sum(len(t["r"]) for t in ctraces)
     chk.count(cruns)
     for t in ctraces:
@@ -706,13 +745,12 @@ def run(chk):
     for t in traces + ctraces:
         for rr in t["r"]:
             per[rr[0]] = per.get(rr[0], 0) + 1
-    names = {RAW: "passthru", S2P: "seg2pt", P2S: "pt2seg", AFF: "transform", RND: "round", REV: "reverse",
-             REVREV: "reverse2", TT: "ttglyph", T2: "t2charstring", SVG: "svgpath", MEAS: "measure",
-             DECOMP: "decompose", AREANEG: "areaneg"}
-    chk.notes["runs_per_adapter"] = {names[k]: v for k, v in sorted(per.items())}
-    chk.notes["outlines"] = {"exhaustive": n_exh, "simulation": len(deep), "corpus": len(ctraces)}
+    chk.notes["runs_per_adapter"] = {NAMES[k]: v for k, v in sorted(per.items())}
+    chk.notes["outlines"] = {"enumerated": n_exh, "replayed_from_enumeration": len(chosen), "simulation": len(deep),
+                             "corpus": len(ctraces)}
     chk.exhaustive = False
-    chk.notes["exhaustive_part"] = "MC_PenProto reachable set under %s.cfg enumerated completely and replayed completely" % cfg
+    chk.notes["exhaustive_part"] = ("MC_PenProto.cfg: every valid call sequence within the bounds enumerated and checked against "
+                                    "the laws; (R) replays %s of them" % ("all" if thorough else "a seeded sample of %d" % len(chosen)))
     chk.assumptions += [
         "coordinates on the 1/12 grid (lattice) or 1/2 grid (fonts); recorded floats are mapped to the grid with 1e-6 tolerance, off-grid values are sent as a sentinel and rejected by the geometry clauses",
         "smooth flags, point names, identifiers are not geometry and are ignored",
@@ -720,12 +758,13 @@ def run(chk):
         "the Type 2 specializer's licence (degenerate curve -> line, zero lines dropped, consecutive same-axis lines summed) is part of the optimize=True contract (C12 owns the specializer)",
         "BoundsPen is compared at 1/64 of a grid unit with 1 unit slack (float rounding of the extremum); cubic extrema are only bracketed (control box, on-curve points, t=1/2), quadratic extrema are exact",
         "AreaPen*60K^2 is an integer on grid inputs; it is compared exactly through residues modulo four 15-bit primes",
+        "a contour of a single point has no observable closedness (named in PenProto.NormSingle)",
     ]
 
 
 def replay(chk, rep):
     r = rep["replay"]
-    item = (r["K"], r["calls"], r.get("tag") or {}, 0, 1)
+    item = (r["K"], r["calls"], r.get("tag") or {}, 0, 2)
     t = build_trace(item)
     chk.log("replaying outline %s" % json.dumps(r["calls"])[:300])
     chk.count(len(t["r"]))
